@@ -50,7 +50,7 @@ def run(ctx):
         if rc != 0 and not reports: extra.append({"prop": "C17", "why": "threaded run ended abnormally", "rc": rc})
     # 2b. the same kinds of schedules on the uninstrumented build under valgrind's DRD, which also watches the C library's internal static
     #     buffers (localeconv, strtok, getenv-style state) that ThreadSanitizer cannot see because glibc is not instrumented.  Only reports
-    #     with a frame inside the library's own sources count; the control below shows the instrument fires.
+    #     with a frame inside the library's own sources AND on memory of a system library count; the control below shows the instrument fires.
     import shutil, subprocess
     drd_reports = 0; drd_runs = 0
     if shutil.which("valgrind"):
@@ -72,6 +72,9 @@ def run(ctx):
                 frames = re.findall(r"(?:at|by) 0x[0-9A-F]+: (\w+) \((\S+?\.c):(\d+)\)", own)
                 lib = [f for f in frames if f[1] in srcs]
                 if not lib: continue
+                # ... and only conflicts on memory that belongs to a system library (the C library's static buffers): the library's own memory is
+                # ThreadSanitizer's business, which - unlike DRD - understands C11 atomics and would not take a correct lock-free pattern for a race
+                if not re.search(r"Allocation context: [^\n]* of /(?:usr/)?lib", blk): continue
                 drd_reports += 1; key = (m.group(1), lib[0])
                 if key not in seen_d:
                     seen_d.add(key); extra.append({"prop": "C17", "why": "DRD (valgrind) data-race report: conflicting %s" % m.group(1), "frames": ["%s %s:%s" % f for f in lib[:4]], "schedule": " ".join(str(x) for x in a)})
